@@ -6,8 +6,9 @@ stdin : {"inputs": "<npz path>", "outputs": "<npz path>", "cases": [{"id": k, "o
            | {"op": "superpose", "frame", "atom_indices", "ref_atom_indices", "parallel"}
            | {"op": "rmsf", "frame", "atom_indices", "parallel", "ref": "self"|"other"|"none"}
            | {"op": "lprmsd", "frame", "atom_indices", "permute_groups", "parallel"}
+           | {"op": "invalid", "call": "rmsd"|"rmsf"|"superpose", ...same arguments}   (must raise)
            | {"op": "history", "steps": [...], "ref": "self"|"other", "ref_steps": [...], "frame", "parallel"}
-             (steps: center | superpose | slice | atom_slice | xyz_assign | inplace_shift; extra arrays
+             (steps: center | center_mass | join | superpose | slice | atom_slice | xyz_assign | inplace_shift; extra arrays
               c<k>_o<j>_nopre/_xyz/_rxyz/_flags)
 stdout: last line {"ok": true, "errors": {"c<k>_o<j>": "ExcName: text"}}; result arrays c<k>_o<j> in the output npz.
 Only mdtraj is exercised here; every comparison happens in harness/props/C06.py.
@@ -26,9 +27,10 @@ def make_traj(xyz):
     xyz = np.array(xyz, dtype=np.float32, copy=True)
     top = md.Topology()
     ch = top.add_chain()
-    for _ in range(xyz.shape[1]):
+    for i in range(xyz.shape[1]):
         r = top.add_residue("ALA", ch)
-        top.add_atom("CA", md.element.carbon, r)
+        # unequal masses (S 32, H 1, C 12): the centre of mass differs from the centroid; RMSD itself ignores masses
+        top.add_atom("CA", (md.element.sulfur, md.element.hydrogen, md.element.carbon)[i % 3], r)
     return md.Trajectory(xyz, top)
 
 
@@ -60,6 +62,16 @@ def run_op(op, target, ref):
                                     parallel=par), dtype=np.float64)
     if kind == "history":
         return run_history(op, target, ref)
+    if kind == "invalid":
+        # arguments the documentation excludes: the call must raise; 1 = raised, 0 = returned something
+        call = {"rmsd": lambda: md.rmsd(t, r, frame, atom_indices=ai, ref_atom_indices=ri, parallel=par),
+                "rmsf": lambda: md.rmsf(t, r, frame, atom_indices=ai, ref_atom_indices=ri, parallel=par),
+                "superpose": lambda: t.superpose(r, frame, atom_indices=ai, ref_atom_indices=ri, parallel=par)}[op["call"]]
+        try:
+            call()
+        except (ValueError, IndexError, TypeError) as e:
+            return {"value": np.array([1.0]), "exc": np.array([ord(ch) for ch in type(e).__name__], dtype=np.int64)}
+        return np.array([0.0])
     raise ValueError("unknown op %r" % kind)
 
 
@@ -76,6 +88,19 @@ def apply_steps(t, steps, ref):
                 r.center_coordinates()
             out = t.superpose(r, frame, atom_indices=ai, ref_atom_indices=ri, parallel=bool(par))
             assert out is t
+        elif k == "center_mass":
+            t.center_coordinates(mass_weighted=True)
+        elif k == "join":
+            # a second piece that continues this trajectory: its first frame repeats the last one (within 5e-4 nm) or not
+            _k, discard, overlap, centre_piece, nextra, seed = st
+            rs = np.random.RandomState(seed)
+            base = np.array(t.xyz, dtype=np.float64, copy=True)
+            first = base[-1] + (rs.uniform(-5e-4, 5e-4, base[-1].shape) if overlap else 0.05 * rs.randn(*base[-1].shape))
+            rest = [base[rs.randint(len(base))] + 0.05 * rs.randn(*base[-1].shape) for _ in range(nextra)]
+            piece = md.Trajectory(np.array([first] + rest, dtype=np.float32), t.topology.copy())
+            if centre_piece:
+                piece.center_coordinates()
+            t = t.join(piece, discard_overlapping_frames=bool(discard))
         elif k == "slice":
             t = t[slice(st[1], st[2], st[3])]
         elif k == "atom_slice":
@@ -97,10 +122,10 @@ def run_history(op, target, ref):
         r = t
     else:
         r = apply_steps(make_traj(ref), op.get("ref_steps", []), ref)
-    frame = int(op["frame"])
+    frame = int(op["frame"]) % r.n_frames          # joins change the number of frames
     txyz = np.array(t.xyz, dtype=np.float32, copy=True)
     rxyz = np.array(r.xyz, dtype=np.float32, copy=True)
-    flags = np.array([t._rmsd_traces is not None, r._rmsd_traces is not None], dtype=np.int64)
+    flags = np.array([t._rmsd_traces is not None, r._rmsd_traces is not None, frame], dtype=np.int64)
     pre = np.asarray(md.rmsd(t, r, frame, parallel=bool(op.get("parallel", True)), precentered=True), dtype=np.float64)
     t2 = make_traj(txyz)
     r2 = t2 if op.get("ref") == "self" else make_traj(rxyz)
